@@ -106,7 +106,7 @@ mut("c09-nodes-between-ge", ["C09"], F, "                end > from_\n          
 mut("c09-node-at-text", ["C09"], N, "            if offset == pos or node.is_text:\n                return node\n            pos -= offset + 1", "            if offset == pos:\n                return node\n            if node.is_text:\n                return None\n            pos -= offset + 1", "node_at inside a text node returns nothing")
 
 TR = "prosemirror/transform/transform.py"
-mut("c18-fitter-opens-isolating-slice-node", ["C18", "C11"], RPL, "            if node.type.spec.get(\"isolating\") and open_end <= d:\n                start_depth = d\n                break\n", "", "slice-side isolating guard of the fitter removed (no clause of C18/C11 speaks about isolating nodes inside the slice: control)", expect="silent")
+mut("c18-fitter-opens-isolating-slice-node", ["C18"], RPL, "            if node.type.spec.get(\"isolating\") and open_end <= d:\n                start_depth = d\n                break\n", "", "slice-side isolating guard of the fitter removed (was a silent control until round-5 seed C18-fitter-isolating-open-end-wrong-node showed the target node can be split through it; now judged by the slice-isolating-node-opened oracle)")
 mut("c19-finish-no-fill", ["C19"], FDM, "        if not open_end and self.match is not None:\n            content = content.append(", "        if False and not open_end and self.match is not None:\n            content = content.append(", "parser does not fill required content when closing a node")
 mut("c19-ws-collapse-keeps-tabs", ["C19"], FDM, "                value = re.sub(r\"[ \\t\\r\\n\\u000c]+\", \" \", value)", "                value = re.sub(r\"[ \\r\\n\\u000c]+\", \" \", value)", "tabs are not collapsed (whitespace detail, round trip of normal documents unaffected: control)", expect="silent")
 mut("c12-wrap-insert-count", ["C12"], TR, "                Slice(content, 0, 0),\n                len(wrappers),\n                True,", "                Slice(content, 0, 0),\n                len(wrappers) - (1 if len(wrappers) > 2 else 0),\n                True,", "three-level wraps put the content one level too high")
